@@ -91,6 +91,10 @@ def get_use_tree(
                     }
                     use_dict[use_stmnt.mod_name] = use_dict_mod
                 widened = False
+            elif type(use_stmnt) is Import:
+                # A further IMPORT statement of the same scope: the entry stays
+                # an Import (it must never be looked up as a module)
+                widened = False
             else:
                 use_dict[use_stmnt.mod_name] = Use(use_stmnt.mod_name)
                 # An ONLY list widened to the whole module: what the module
